@@ -524,9 +524,11 @@ pub fn matches_expansion(actual: &[Mapping], e: &Expansion) -> bool {
 
 // ---- program generator ----------------------------------------------------------------------
 
-const ALIAS_NAMES: [&str; 6] = ["@shift", "@symbol", "@movement", "@a", "@Mod-2", "@x_y"];
+// (names that differ only in case are different aliases)
+const ALIAS_NAMES: [&str; 11] = ["@shift", "@symbol", "@movement", "@a", "@Mod-2", "@x_y", "@Shift", "@SHIFT", "@A", "@s", "@S"];
 const PLAIN_MOD_POOL: [KeyCode; 8] = [LEFTCTRL, LEFTALT, LEFTMETA, RIGHTCTRL, SPACE, ENTER, F1, F2];
 const ALIAS_KEY_POOL: [KeyCode; 12] = [LEFTSHIFT, RIGHTSHIFT, CAPSLOCK, RIGHTALT, TAB, BACKSLASH, RIGHTMETA, F3, F4, F5, F6, ESC];
+const ALIAS_KEY_POOL_MORE: [KeyCode; 18] = [KP0, KP1, KP2, KP3, KP4, KP5, KP6, KP7, KP8, KP9, F13, F14, F15, F16, F17, F18, INSERT, PAUSE];
 const EXTRA_OUT_POOL: [KeyCode; 4] = [F7, F8, LEFTALT, F9];
 const SINGLE_KEY_POOL: [KeyCode; 10] = [SPACE, ENTER, BACKSPACE, DELETE, F10, F11, F12, UP, DOWN, A];
 const OUT_KEY_POOL: [KeyCode; 10] = [ESC, LEFT, RIGHT, HOME, END, PAGEUP, K1, K0, N, BACKSPACE];
@@ -545,10 +547,42 @@ fn gen_letters(src: &mut Src, max_len: usize, allow_space: bool) -> String {
   s
 }
 
+// every (sorted modifier keys, final key) a trigger written with aliases expands to
+fn expanded_trigger_sets(aliases: &[Alias], mods: &[Mo], key: KeyCode) -> Vec<(Vec<KeyCode>, KeyCode)> {
+  let mut sets: Vec<Vec<KeyCode>> = vec![vec![]];
+  for m in mods {
+    match m {
+      Mo::Key(k) => {
+        for s in sets.iter_mut() {
+          s.push(*k);
+        }
+      }
+      Mo::Alias(a) => {
+        let mut next = Vec::new();
+        for s in &sets {
+          for d in &aliases[*a].defs {
+            let mut s2 = s.clone();
+            s2.extend(d.keys.iter().cloned());
+            next.push(s2);
+          }
+        }
+        sets = next;
+      }
+    }
+  }
+  sets.into_iter().map(|mut s| { s.sort(); (s, key) }).collect()
+}
+
 pub fn gen_prog(src: &mut Src) -> Prog {
   // aliases: disjoint key pools per alias, so that no combination repeats a key
   let n_alias = src.weighted(&[20, 40, 25, 15]);
+  // wide programs: multi-key aliases (up to 4 keys) and up to 4 trigger modifiers, so that
+  // expanded triggers reach 7 and more keys
+  let wide = src.chance(12);
   let mut pool: Vec<KeyCode> = ALIAS_KEY_POOL.to_vec();
+  if wide {
+    pool.extend_from_slice(&ALIAS_KEY_POOL_MORE);
+  }
   let mut aliases = Vec::new();
   let names = src.distinct(&ALIAS_NAMES, n_alias);
   for name in names {
@@ -558,9 +592,9 @@ pub fn gen_prog(src: &mut Src) -> Prog {
       if pool.len() < 2 {
         break;
       }
-      let two = src.chance(20);
+      let n_keys = if wide { 1 + src.weighted(&[20, 30, 25, 25]) } else if src.chance(20) { 2 } else { 1 };
       let mut keys = vec![pool.remove(src.below(pool.len()))];
-      if two {
+      while keys.len() < n_keys && pool.len() > 1 {
         keys.push(pool.remove(src.below(pool.len())));
       }
       // extra output keys; never for a lone standard modifier (undocumented combination)
@@ -581,9 +615,10 @@ pub fn gen_prog(src: &mut Src) -> Prog {
   let n_src = src.range(1, 6);
   let mut body: Vec<Item> = Vec::new();
   let mut repeat_only_triggers: Vec<(Vec<Mo>, KeyCode)> = Vec::new();
+  let mut repeat_only_sets: Vec<(Vec<KeyCode>, KeyCode)> = Vec::new();
   for _ in 0..n_src {
     // trigger modifiers: 0-3, each alias at most once, plain keys distinct
-    let n_mods = src.weighted(&[25, 40, 25, 10]);
+    let n_mods = if wide { src.weighted(&[10, 25, 25, 20, 20]) } else { src.weighted(&[25, 40, 25, 10]) };
     let mut mods: Vec<Mo> = Vec::new();
     let mut plain_pool: Vec<KeyCode> = PLAIN_MOD_POOL.to_vec();
     let mut alias_pool: Vec<usize> = (0..aliases.len()).collect();
@@ -611,9 +646,51 @@ pub fn gen_prog(src: &mut Src) -> Prog {
     };
     let absorbing: Vec<Mo> = if !mods.is_empty() && src.chance(30) { src.subset(&mods, 60) } else { vec![] };
     let kind = src.weighted(&[40, 42, 18]);
+    // earlier single mappings of this program (for near-duplicates and targeted repeat-only entries)
+    let earlier: Vec<(Vec<Mo>, KeyCode)> = body.iter().filter_map(|it| if let Item::Single { mods, key, .. } = it { Some((mods.clone(), *key)) } else { None }).collect();
+    let (mods, forced_key): (Vec<Mo>, Option<KeyCode>) = if !earlier.is_empty() && ((kind == 2 && src.chance(60)) || (kind == 0 && src.chance(15))) {
+      let (mut m, k) = src.pick(&earlier);
+      match src.weighted(&[if kind == 2 { 50 } else { 0 }, 30, 20]) {
+        0 => src.shuffle(&mut m), // the same trigger set, modifiers possibly in another order
+        1 => {
+          // near-identical: one plain modifier replaced by another
+          let free: Vec<KeyCode> = PLAIN_MOD_POOL.iter().cloned().filter(|p| !m.contains(&Mo::Key(*p)) && *p != k).collect();
+          if let (Some(pos), false) = (m.iter().position(|x| matches!(x, Mo::Key(_))), free.is_empty()) {
+            m[pos] = Mo::Key(src.pick(&free));
+          } else if !free.is_empty() {
+            m.push(Mo::Key(src.pick(&free)));
+          }
+        }
+        _ => {
+          if !m.is_empty() {
+            let i = src.below(m.len());
+            m.remove(i);
+          }
+        }
+      }
+      (m, Some(k))
+    } else {
+      (mods, None)
+    };
+    let used_aliases: Vec<usize> = mods.iter().filter_map(|m| if let Mo::Alias(a) = m { Some(*a) } else { None }).collect();
+    let absorbing: Vec<Mo> = absorbing.into_iter().filter(|a| mods.contains(a)).collect();
+    let gen_out_mods = |src: &mut Src, max: usize, forbid: &[KeyCode]| -> Vec<Mo> {
+      let mut out: Vec<Mo> = Vec::new();
+      let n = src.below(max + 1);
+      let mut ua = used_aliases.clone();
+      let mut pp: Vec<KeyCode> = vec![LEFTCTRL, LEFTALT, RIGHTALT, LEFTMETA, LEFTSHIFT].into_iter().filter(|k| !forbid.contains(k)).collect();
+      for _ in 0..n {
+        if !ua.is_empty() && src.chance(55) {
+          out.push(Mo::Alias(ua.remove(src.below(ua.len()))));
+        } else if !pp.is_empty() {
+          out.push(Mo::Key(pp.remove(src.below(pp.len()))));
+        }
+      }
+      out
+    };
     match kind {
       0 => {
-        let key = src.pick(&SINGLE_KEY_POOL);
+        let key = forced_key.unwrap_or_else(|| src.pick(&SINGLE_KEY_POOL));
         if mods.iter().any(|m| *m == Mo::Key(key)) {
           continue;
         }
@@ -651,14 +728,17 @@ pub fn gen_prog(src: &mut Src) -> Prog {
         body.push(Item::Row { mods, row, to_initial, letters, rep, absorbing });
       }
       _ => {
-        let key = src.pick(&[SPACE, ENTER, A, S, Q, Z, K1, J]);
+        let key = forced_key.unwrap_or_else(|| src.pick(&[SPACE, ENTER, A, S, Q, Z, K1, J]));
         if mods.iter().any(|m| *m == Mo::Key(key)) {
           continue;
         }
-        // at most one repeat-only entry per trigger (two are order dependent and undocumented)
-        if repeat_only_triggers.iter().any(|(m, k)| *k == key && m.len() == mods.len() && m.iter().all(|x| mods.contains(x))) {
+        // at most one repeat-only entry per expanded trigger set (two are order dependent and
+        // undocumented)
+        let sets = expanded_trigger_sets(&aliases, &mods, key);
+        if sets.iter().any(|s| repeat_only_sets.contains(s)) {
           continue;
         }
+        repeat_only_sets.extend(sets);
         repeat_only_triggers.push((mods.clone(), key));
         let rep = match src.weighted(&[10, 40, 50]) {
           0 => SRep::Normal,
@@ -947,7 +1027,7 @@ pub fn check(cfg: &RunCfg, _findings: &Findings) -> Report {
     16,
     if quick { 30_000 } else { 250_000 },
     64,
-    300,
+    700,
     |src: &mut Src| gen_case(src),
     |c: &C13Case, stats: &mut Stats| run_case(c, stats),
   );
